@@ -42,7 +42,9 @@ ExpectedTable(t) ==
 
 (* the order in which the rows come back is the order of the file names for the fsspec reader; the arrow reader lists
    the directory in an unspecified order unless it sorted the files for the divisions *)
-OrderDefined(t) == t.case.rd.fs = "fsspec" \/ t.case.term = "len"
+(* with a disjunction of user filters the fsspec reader keeps the parts matched by the first conjunction first: part order,
+   and so row order, is not the file order any more (divisions are unknown then) *)
+OrderDefined(t) == (t.case.rd.fs = "fsspec" /\ Len(t.case.uf) <= 1) \/ t.case.term = "len"
 
 RECURSIVE BadObs(_, _, _)
 BadObs(t, i, acc) ==
@@ -68,7 +70,8 @@ PlanDivisions(t) ==
     ELSE IF p.known /\ \E i \in 1..(Len(p.div) - 1) : p.div[i] > p.div[i + 1] THEN "Divisions.Sorted"
     ELSE IF p.known /\ \E i \in DOMAIN p.minmax : p.minmax[i] # <<>> /\ (p.minmax[i][1] < p.div[i] \/ p.minmax[i][2] > p.div[i + 1]) THEN "Divisions.Truthful"
     ELSE IF t.must_know /\ ~p.known THEN "Divisions.Requested"                         \* sorted disjoint files, calculate_divisions=True, nothing selected or filtered
-    ELSE IF t.must_know /\ p.div # t.case.divs THEN "Divisions.Value"
+    ELSE IF t.must_know /\ p.fused = <<>> /\ p.div # t.case.divs THEN "Divisions.Value"
+    ELSE IF t.must_know /\ \E i \in DOMAIN p.fused : p.fused[i].known /\ p.fused[i].inner_div # t.case.divs THEN "Divisions.Value"   \* fused read: the reader's own divisions (FusedOK ties the fused ones to them)
     ELSE "ok"
 
 (* multi-file fused reads (FusedIO): the buckets are the selected partitions, in order, cut into consecutive runs; the fused
